@@ -14,7 +14,7 @@ RULE = ("(i) direct: AdbMessage(cmd,arg0,arg1,payload).pack()/unpack()/checksum(
         "non-trivial = at least one message with a non-empty payload parsed; distinct = distinct (kind, command, payload-size bucket, arg class) / scenario signatures")
 ASSUMPTIONS = ["the command words and the header layout written out in vlib/wire.py (from AOSP adb.h / protocol.txt) are the protocol's"]
 SHARDS = {"quick": 8, "thorough": 16}
-TIME_BUDGET = {"quick": 60, "thorough": 600}
+TIME_BUDGET = {"quick": 300, "thorough": 1800}
 FLOORS = {"quick": {"concurrent_schedules": 200, "sum_exceeds_2_32": 1, "messages_parsed": 3000, "stream_messages": 1500, "distinct": 40}, "thorough": {"messages_parsed": 30000, "stream_messages": 15000, "distinct": 60}}
 
 ARGS = [0, 1, 2, 0x7FFFFFFF, 0x80000000, 0xFFFFFFFE, 0xFFFFFFFF]
